@@ -592,7 +592,12 @@ func (tdsChan *Channel) WritePacket(packet *Packet) {
 
 	// The packet is header-only - pass it directly into the package
 	// channel.
-	if packet.Header.Length == PacketHeaderSize {
+	// This only applies to packets controlling the channel. An empty
+	// packet of a response (e.g. the last packet of a message ending
+	// on a packet boundary) is handled like every other packet of the
+	// response, as it may carry the EOM status.
+	if packet.Header.Length == PacketHeaderSize &&
+		packet.Header.MsgType != TDS_BUF_RESPONSE && packet.Header.MsgType != TDS_BUF_NORMAL {
 		tdsChan.packageCh <- HeaderOnlyPackage{Header: packet.Header}
 		return
 	}
